@@ -29,6 +29,7 @@ Inductive ty : Type :=
 | TUnion (a b : ty) | TInter (a b : ty)
 | TKeyof (ro : bool) (t : ty)             (* keyof t / readonly t *)
 | TInfer (x : Z)
+| TInferC (x : Z) (c : ty)                 (* infer x extends c   (only as the extends operand of a conditional type) *)
 | TParen (t : ty)
 | TFn (kind : Z) (tps : list ty) (ps : list ty) (ret : ty)   (* kind 0: <tps>(ps) => ret ; 1: new <tps>(ps) => ret ; 2: abstract new ... ; tps are TTParam, ps are TParam *)
 | TTParam (mods : list Z) (x : Z) (hc hd : bool) (c d : ty)   (* const in out x extends c = d   (mods: 0 const, 1 in, 2 out) *)
@@ -62,6 +63,7 @@ Section ty_ind'.
   Hypothesis HInter : forall a b, P a -> P b -> P (TInter a b).
   Hypothesis HKeyof : forall ro t, P t -> P (TKeyof ro t).
   Hypothesis HInfer : forall x, P (TInfer x).
+  Hypothesis HInferC : forall x c, P c -> P (TInferC x c).
   Hypothesis HParen : forall t, P t -> P (TParen t).
   Hypothesis HFn : forall k tps ps ret, Forall P tps -> Forall P ps -> P ret -> P (TFn k tps ps ret).
   Hypothesis HTParam : forall ms x hc hd c d, P c -> P d -> P (TTParam ms x hc hd c d).
@@ -92,6 +94,7 @@ Section ty_ind'.
     | TInter a b => HInter a b (ty_ind' a) (ty_ind' b)
     | TKeyof ro t => HKeyof ro t (ty_ind' t)
     | TInfer x => HInfer x
+    | TInferC x c => HInferC x c (ty_ind' c)
     | TParen t => HParen t (ty_ind' t)
     | TFn k tps ps ret => HFn k tps ps ret (go tps) (go ps) (ty_ind' ret)
     | TTParam ms x hc hd c d => HTParam ms x hc hd c d (ty_ind' c) (ty_ind' d)
@@ -115,7 +118,7 @@ Definition prec (t : ty) : Z :=
   | TCond _ _ _ _ | TPred _ _ | TFn _ _ _ _ | TAsserts _ _ _ => 0
   | TUnion _ _ => 1
   | TInter _ _ => 2
-  | TKeyof _ _ | TInfer _ | TUnique => 3
+  | TKeyof _ _ | TInfer _ | TInferC _ _ | TUnique => 3
   | TArr _ | TIdx _ _ => 4
   | _ => 5
   end.
@@ -137,7 +140,7 @@ Definition key_tk (c : Z) : tk :=
 
 Fixpoint ends_infer (t : ty) : bool :=
   match t with
-  | TInfer _ => true
+  | TInfer _ | TInferC _ _ => true
   | TUnion _ b | TInter _ b | TKeyof _ b | TCond _ _ _ b | TPred _ b | TFn _ _ _ b => ends_infer b
   | TAsserts _ true b => ends_infer b
   | _ => false
@@ -223,6 +226,7 @@ Fixpoint wfb (t : ty) : bool :=
   | TInter a b => wfb a && (2 <=? prec a) && negb (ends_infer a) && wfb b && (3 <=? prec b)
   | TKeyof _ t => wfb t && (3 <=? prec t)
   | TInfer x => normal x
+  | TInferC _ _ => false
   | TParen t => wfb t && paren_content_ok t
   | TFn k tps ps ret => (0 <=? k) && (k <=? 2) && wf_tparams_with wfb tps && wf_params_with wfb ps && wf_ret_with wfb ret
   | TTParam _ _ _ _ _ _ => false
@@ -230,7 +234,12 @@ Fixpoint wfb (t : ty) : bool :=
   | TAsserts _ _ _ => false
   | TObj ms => wf_members_with wfb ms
   | TMProp _ _ _ _ | TMMeth _ _ _ _ _ _ _ | TMIndex _ _ _ _ _ | TMMapped _ _ _ _ _ _ _ _ _ _ => false
-  | TCond c e a b => wfb c && (1 <=? prec c) && negb (ends_infer c) && wfb e && (1 <=? prec e) && nc_ok e && wfb a && wfb b
+  | TCond c e a b =>
+      wfb c && (1 <=? prec c) && negb (ends_infer c) &&
+      (match e with
+       | TInferC x c' => normal x && wfb c' && (4 <=? prec c')      (* T extends infer U extends C ? a : b *)
+       | _ => wfb e && (1 <=? prec e) && nc_ok e
+       end) && wfb a && wfb b
   | TPred x t => bind_ok x && wfb t
   | TTemplate ts => match ts with [] => false | _ => forallb wfb ts end
   end.
@@ -305,6 +314,7 @@ Fixpoint R (t : ty) (post : toks) : toks :=
   | TInter a b => R a (tk1 KAmp :: R b post)
   | TKeyof ro t => tk1 (KIdent (if ro then c_readonly else c_keyof)) :: R t post
   | TInfer x => tk1 (KIdent c_infer) :: tk1 (KIdent x) :: post
+  | TInferC x c => tk1 (KIdent c_infer) :: tk1 (KIdent x) :: tk1 KExtends :: R c post
   | TParen t => tk1 KLParen :: R t (tk1 KRParen :: post)
   | TFn k tps ps ret =>
       (if k =? 2 then [tk1 (KIdent c_abstract); tk1 KNew] else if k =? 1 then [tk1 KNew] else []) ++
